@@ -293,6 +293,51 @@ def recycled_results(rounds=40):
     return bad, n
 
 
+def shared_members():
+    """Two containers of one kind in a process: the first holds literals and is read first, the second holds non-literal
+    values at the same positions / under the same names.  What is read from the second is its own member (its truth test
+    raises), whatever was read from the first."""
+    import nada_dsl as D
+    from nada_dsl.program_io import Input as RawInput
+    bad, n = [], 0
+    reset_globals()
+    party = D.Party("p")
+    settings = D.NTuple.new([D.Boolean(True), D.Integer(3), D.Boolean(False)])
+    first = [settings[0], settings[1], settings[-1]]
+    cfg = D.Object.new({"flag": D.Boolean(True), "limit": D.Integer(3)})
+    first += [cfg.flag, cfg.limit]
+    record = D.NTuple.new([D.SecretBoolean(RawInput("f0", party)), D.SecretInteger(RawInput("x", party)), D.PublicBoolean(RawInput("f2", party))])
+    rec = D.Object.new({"flag": D.SecretBoolean(RawInput("f3", party)), "limit": D.SecretInteger(RawInput("y", party))})
+    reads = [("settings = NTuple.new([Boolean(True), ..]); settings[0]; record = NTuple.new([secret flag, ..]); record[0]", lambda: record[0]),
+             ("… record[-1]", lambda: record[-1]), ("… record[1] < Integer(5)", lambda: record[1] < D.Integer(5)),
+             ("cfg = Object.new({'flag': Boolean(True), ..}); cfg.flag; rec = Object.new({'flag': secret flag, ..}); rec.flag", lambda: rec.flag),
+             ("… rec.limit > Integer(1)", lambda: rec.limit > D.Integer(1))]
+    for text, f in reads:
+        n += 1
+        try:
+            v = f()
+        except Exception as exc:  # pylint: disable=broad-except
+            bad.append((text, f"raised {type(exc).__name__}"))
+            continue
+        if kind(lambda v=v: bool(v)) != "raises" or kind(lambda v=v: 1 if v else 2) != "raises":
+            bad.append((text, f"returned a {type(v).__name__} whose truth value Python can read: the program branches on a member of another container"))
+    reset_globals()
+    return bad, n
+
+
+def in_fresh_interpreter(call):
+    """evaluate `c07.<call>` (returning (bad, n)) in a new interpreter"""
+    import subprocess
+    env = dict(os.environ, PYTHONDONTWRITEBYTECODE="1")
+    p = subprocess.run([sys.executable, "-c", "import json; from nv.props import c07; print(json.dumps(c07.%s))" % call],
+                       env=env, capture_output=True, text=True, timeout=900)
+    try:
+        b, k = json.loads(p.stdout.strip().split("\n")[-1])
+    except (ValueError, IndexError):
+        raise core.Infra(f"{call} failed in a new interpreter: " + (p.stderr or p.stdout)[-400:])
+    return [tuple(x) for x in b], k
+
+
 def recycled_fresh(rounds, seeds=(0, 1, 2)):
     """`recycled_results` in new interpreters (what is allocated where depends on everything the process did before; a new
     interpreter is what a user's compilation is), under several hash seeds"""
@@ -317,6 +362,9 @@ def run(res, tier):
     rec_bad, nrec = recycled_fresh(12 if tier == "quick" else 100)
     for text, why in rec_bad[:2]:
         res.violation({"property": "C07", "kind": "recycled", "expr": text, "why": why}, f"{text}: {why}")
+    shared_bad, nshared = in_fresh_interpreter("shared_members()")
+    for text, why in shared_bad[:3]:
+        res.violation({"property": "C07", "kind": "shared-member", "expr": text, "why": why}, f"{text}: {why}")
     alias_bad, nalias = aliasing_results()
     for text, why in alias_bad[:4]:
         res.violation({"property": "C07", "kind": "aliased-member", "expr": text, "why": why}, f"{text}: {why}")
@@ -391,6 +439,12 @@ def run(res, tier):
 
 
 def replay(obj):
+    if obj.get("kind") == "shared-member":
+        bad = in_fresh_interpreter("shared_members()")[0]
+        print(bad or "ok")
+        if bad:
+            print("VIOLATION property=C07 replay=(replayed)")
+        return 1 if bad else 0
     if obj.get("kind") == "recycled":
         bad = recycled_fresh(100)[0]
         print(bad or "ok")
